@@ -60,6 +60,7 @@ def main():
         chk.sample(s)
     chk.sample(rows[0])
     chk.notes["step_count_mismatches_spec_vs_impl (fingerprint)"] = len(res["steps"])
+    chk.notes["step_traces_compared (kind and position of every parseExpr call, spec vs hook)"] = res.get("tracescompared", 0)
     chk.notes["nesting_runs"] = len(rows)
     chk.notes["rule"] = ("inputs: every sequence of <= %d tokens + %d renderings / mutations of random trees (valid, invalid, trailing garbage, "
                          "parenthesised) x budgets {2^22, 2N, N+1, N, N-1, N/2, 2, 1} around the measured step count N; 16..64 nested parentheses "
